@@ -496,3 +496,14 @@ Proof.
   exists overlong_store, (mkQ 9 [3; 99; 111; 109; 0] 1 1 None), (LocOk [0; 1]), None, 1.
   vm_compute. repeat split; reflexivity.
 Qed.
+
+(* ---------------------------------------------------------------- all three backends *)
+Theorem serve_no_panic : forall b st q locr ecs max,
+  (b = RDB2 -> wf_store_v2 st = true /\ loc_wf locr) -> wire_name (q_name q) = true ->
+  serve b st q locr ecs max <> OPanic /\ serve b st q locr ecs max <> OFuel.
+Proof.
+  intros b st q locr ecs max Hg Hw. destruct b.
+  - apply serve_no_panic_v1; [discriminate | exact Hw].
+  - apply serve_no_panic_v1; [discriminate | exact Hw].
+  - destruct (Hg eq_refl) as [H1 H2]. apply serve_no_panic_v2; assumption.
+Qed.
